@@ -86,7 +86,8 @@ DefaultPlacement ==   \* the runtime-wide default writer, alone or next to the o
 AuthOnForms ==      \* auth writers on form bodies (buffered urlencoded, streaming multipart)
   /\ track = "structure" /\ ~in.auth
   /\ \E k \in 0..MaxK, dbg \in BOOLEAN, pl \in {"op", "default", "both"} :
-        in' = [in EXCEPT !.auth = (pl # "default"), !.defauth = (pl # "op"), !.k = k, !.debug = dbg]
+        /\ (dbg => pl = "op")
+        /\ in' = [in EXCEPT !.auth = (pl # "default"), !.defauth = (pl # "op"), !.k = k, !.debug = dbg]
   /\ track' = "structure-auth"
 
 Next == DefaultPlacement \/ SniffTrack \/ StartStructure \/ AddFileField \/ AddItem \/ AddField \/ AddValue \/ PayloadTrack \/ AuthOnForms
